@@ -60,14 +60,20 @@ def gen_opts(rng, inst, ncrit=None, stab=None, pc=None, pool=None):
 
 
 def lp_base(rng, inst, opts, ops=None, policy=None):
-    return {'family': 'lp', 'inst': inst, 'na': inst['na'],
-            'twopl': inst['twopl'], 'opts': opts,
-            'ops': ops or [['solve', {}], ['get_results'],
-                           ['get_results_long']],
-            'backend': {'policy': policy or rng.choice(POLICIES),
-                        'choice_seed': rng.randrange(2 ** 31),
-                        'duration_seed': rng.randrange(2 ** 31)},
-            'clock_seed': rng.randrange(2 ** 31)}
+    sc = {'family': 'lp', 'inst': inst, 'na': inst['na'],
+          'twopl': inst['twopl'], 'opts': opts,
+          'ops': ops or [['solve', {}], ['get_results'],
+                         ['get_results_long']],
+          'backend': {'policy': policy or rng.choice(POLICIES),
+                      'choice_seed': rng.randrange(2 ** 31),
+                      'duration_seed': rng.randrange(2 ** 31)},
+          'clock_seed': rng.randrange(2 ** 31)}
+    x = rng.random()
+    if x < 0.12:
+        sc['backend']['value_noise'] = rng.randrange(1, 2 ** 31)
+    if rng.random() < 0.1:
+        sc['relpath'] = True     # run from the instance's directory, -f name
+    return sc
 
 
 def build_c01(rng, tier):
@@ -144,7 +150,7 @@ BUILDERS = {'C01': build_c01, 'C02': build_c02, 'C03': build_c03,
 STATUS_FAULTS = ['status:Infeasible', 'status:Unbounded', 'status:Undefined',
                  'status:Not Solved']
 VALUE_MODES = ['zeros', 'stale', 'garbage']
-LIMITS = [5, 60.0, 600, 3600.0]
+LIMITS = [0.5, 1, 5, 60.0, 600, 3600.0]
 
 
 def build_c14(rng, tier):
